@@ -37,6 +37,8 @@ type opReq struct {
 	Hex      string   `json:"hex,omitempty"`
 	Digest   bool     `json:"digest,omitempty"` // report sha1 of each row instead of the values
 	NoRows   bool     `json:"no_rows,omitempty"`
+	NestedAt int      `json:"nested_at,omitempty"` // on its k-th call the callback runs Nested on the SAME handle
+	Nested   *opReq   `json:"nested,omitempty"`
 }
 
 type opRes struct {
@@ -101,7 +103,40 @@ type collector struct {
 	req   *opReq
 	res   *opRes
 	tp    *tracePager
+	h     *handle
 	calls int
+}
+
+// nestedCall runs a high level operation from inside a row callback of the same handle (the documentation forbids
+// nothing of the kind; the nested call is refused because the handle is locked, and must leave the outer lock alone)
+func nestedCall(h *handle, n *opReq) string {
+	nop := func(sqlittle.Row) {}
+	var err error
+	switch n.Op {
+	case "select":
+		err = h.hdb.Select(n.Table, nop, n.Cols...)
+	case "select_rowid":
+		id, _ := strconv.ParseInt(n.Rowid, 10, 64)
+		_, err = h.hdb.SelectRowid(n.Table, id, n.Cols...)
+	case "indexed_select":
+		err = h.hdb.IndexedSelect(n.Table, n.Index, nop, n.Cols...)
+	case "indexed_select_eq":
+		key, _ := toHLKey(n.Key)
+		err = h.hdb.IndexedSelectEq(n.Table, n.Index, key, nop, n.Cols...)
+	case "pk_select":
+		key, _ := toHLKey(n.Key)
+		err = h.hdb.PKSelect(n.Table, key, nop, n.Cols...)
+	case "columns":
+		_, err = h.hdb.Columns(n.Table)
+	case "rlock":
+		err = h.db.RLock()
+	default:
+		return "unknown nested op"
+	}
+	if err != nil {
+		return err.Error()
+	}
+	return ""
 }
 
 func (c *collector) row(vals []interface{}) bool {
@@ -125,6 +160,10 @@ func (c *collector) row(vals []interface{}) bool {
 			}
 			c.res.Rows = append(c.res.Rows, encVals(cp))
 		}
+	}
+	if c.req.Nested != nil && c.calls == c.req.NestedAt && c.h != nil {
+		ne := nestedCall(c.h, c.req.Nested)
+		c.res.Extra = map[string]interface{}{"nested_err": ne}
 	}
 	if c.req.PanicAt > 0 && c.calls == c.req.PanicAt {
 		panic("verif: callback panic")
@@ -150,7 +189,7 @@ func runOp(h *handle, r *opReq) (res opRes) {
 		tp.failAt = 0
 	}
 	tp.lockFail = r.LockFail
-	c := &collector{req: r, res: &res, tp: tp}
+	c := &collector{req: r, res: &res, tp: tp, h: h}
 	defer func() {
 		if p := recover(); p != nil {
 			res.Panic = fmt.Sprint(p)
